@@ -13,7 +13,7 @@ from props.C16 import Coverage, ANCHORED
 ID = 'C17'
 COQ_MODEL = 'model.Range'
 COQ_CORR = 'corr_C17'
-N_QUICK = 4000
+N_QUICK = 3000
 N_THOROUGH = 20000
 THOROUGH_EXHAUSTIVE = True
 RULE = ('cases = corpus + random, three kinds: (range) get_first_range(header, maxlen) directly; (iter) '
